@@ -100,8 +100,19 @@ def _nocopy_reshape(old_shape, old_strides, new_shape, fortran):
     return newstrides
 
 
+def _int_cast(x):
+    """what numpy stores when a value is written into an integer-typed array: whole numbers as they are, anything else truncated
+    (a symbolic value becomes an opaque `int(...)` of itself, which no longer equals the value)"""
+    x = _lift(x)
+    if x.is_const():
+        c = list(x.num.values())[0] if x.num else Fraction(0)
+        return x if Fraction(c).denominator == 1 and x.den == A.ONE else A.Rat.const(int(Fraction(c)))
+    return A.sym("int(%r)" % (x,))
+
+
 class SymArr:
     _abs_native = True
+    int_typed = False      # True for arrays the caller built from whole numbers: *_like allocations inherit it, stores into them are cast
 
     def __init__(self, shape, flat, boolean=False):
         self.shape = tuple(int(s) for s in shape)
@@ -344,7 +355,10 @@ class SymArr:
             if self.boolean:
                 self.flat[sum(i * s for i, s in zip(idx, st))] = bool(v.flat[n] if v is not None else value)
             else:
-                self.flat[sum(i * s for i, s in zip(idx, st))] = v.flat[n] if v is not None else _lift(value)
+                x = v.flat[n] if v is not None else _lift(value)
+                if getattr(self, "int_typed", False):
+                    x = _int_cast(x)
+                self.flat[sum(i * s for i, s in zip(idx, st))] = x
 
     # -------------------------------------------------------------- arithmetic
     def _bin(self, o, fn):
@@ -566,6 +580,13 @@ def block_diag(*mats):
     return out
 
 
+def _ones_like(a, dtype=None):
+    out = SymArr.ones(SymArr.of(a).shape)
+    if dtype is None and getattr(a, "int_typed", False):
+        out.int_typed = True
+    return out
+
+
 def np_summaries():
     """numpy / scipy names -> implementations over SymArr, for core.absint"""
     def reshape(a, shape, order="C"):
@@ -690,7 +711,12 @@ def np_summaries():
         return bmat([arrs])
 
     def empty_like(a, dtype=None, shape=None, **k):
-        return SymArr.zeros(shape if shape is not None else SymArr.of(a).shape)
+        out = SymArr.zeros(shape if shape is not None else SymArr.of(a).shape)
+        if dtype is None and getattr(a, "int_typed", False):
+            out.int_typed = True          # numpy: the new array has the dtype of the prototype
+        elif dtype is not None and "int" in (dtype if isinstance(dtype, str) else getattr(dtype, "__name__", str(dtype))):
+            out.int_typed = True
+        return out
 
     def diag(a):
         a = SymArr.of(a)
@@ -719,7 +745,7 @@ def np_summaries():
         "np.repeat": repeat, "np.tile": tile, "np.concatenate": concatenate, "np.hstack": lambda seq: concatenate(seq, 1),
         "np.vstack": lambda seq: bmat([[_as2d(x)] for x in seq]), "np.stack": lambda seq, axis=0: SymArr.of([SymArr.of(x).tolist() for x in seq]),
         "np.empty_like": empty_like, "np.zeros_like": empty_like, "np.empty": lambda s_, *a, **k: SymArr.zeros(s_),
-        "np.ones_like": lambda a, **k: SymArr.ones(SymArr.of(a).shape), "np.diag": diag, "np.outer": outer,
+        "np.ones_like": lambda a, dtype=None, **k: _ones_like(a, dtype), "np.diag": diag, "np.outer": outer,
         "np.isin": lambda a, b: [(_as_int(x, 10 ** 9) if not isinstance(x, int) else x) in [(_as_int(y, 10 ** 9) if not isinstance(y, int) else y) for y in (b.flat if isinstance(b, SymArr) else (list(b) if isinstance(b, (list, tuple, range)) else [b]))]
                                  for x in (a.flat if isinstance(a, SymArr) else list(a))],
         "np.multiply": lambda a, b: SymArr.of(a) * b, "np.size": lambda a, *x: SymArr.of(a).size, "np.shape": lambda a: SymArr.of(a).shape,
